@@ -266,7 +266,7 @@ def round_level(ctx, binp, dev_sat, dev_rng):
     dev_scalar, dev_static, dev_panic = (ctx.deviation_open(k) for k in (KEY_SCALAR, KEY_STATIC, KEY_PANIC))
     k_rep = consts(False, False, False, False, False, False, tier)
     k_code = consts(dev_sat, dev_rng, dev_scalar, dev_static, True, dev_panic, tier)
-    outs, rounds = gen_rounds(ctx, k_code)
+    outs, rounds, histories = gen_rounds(ctx, k_code)
     # rounds in which the model places every descriptor whatever the order of the offers; those with task roles sharing
     # a task class are deployed twice in the same core (the class registry persists)
     places_all = {}
@@ -287,6 +287,7 @@ def round_level(ctx, binp, dev_sat, dev_rng):
 
     def run_real(cat_):
         scs = [round_scenario(100 + i, rnd) for i, rnd in enumerate(cat_)]
+        scs += [history_scenario(5000 + i, h) for i, h in enumerate(histories) if h["exec"] == EXEC]
         try:
             return scs, cs.run_scenarios(ctx, scs, timeout=900)
         except vlib.Inconclusive as e:
@@ -353,11 +354,12 @@ def round_level(ctx, binp, dev_sat, dev_rng):
     ctx.extra["rounds_on_real_core"] = {"scenarios": len(scenarios), "offers_rounds": nrounds, "trace_lines": len(tlines),
                                         "scenarios_with_task_roles_sharing_a_class": sum(1 for s in scenarios if len(set(s["model"]["classes"])) < len(s["model"]["descs"])),
                                         "scenarios_deployed_twice": sum(1 for s in scenarios if s["model"]["deployments"] > 1),
+                                        "histories_with_template_edits": sum(1 for s in scenarios if "versions" in s["model"]),
                                         "not_answered_in_time": len(incomplete),
                                         "core_panics": sum(1 for x in tlines if x["ev"] == "Panic")}
     for s in scenarios:
         m = s["model"]
-        ctx.count_case("round" + json.dumps([m["offers"], m["descs"], m["deployments"]], sort_keys=True))
+        ctx.count_case("round" + json.dumps([m["offers"], m.get("versions", m["descs"]), m["deployments"]], sort_keys=True))
     ex = scenarios[0]
     ctx.sample({"round_scenario": {"offers": ex["model"]["offers"], "descs": ex["model"]["descs"]},
                 "trace": [x for x in tlines if x["scn"] == ex["id"]][:6]})
@@ -440,6 +442,26 @@ def round_scenario(sid, rnd):
             "model": {"offers": rnd["offers"], "descs": rnd["descs"], "classes": classes, "deployments": rnd.get("deployments", 1)}}
 
 
+def history_scenario(sid, h):
+    """Deployments in ONE core; before deployment k the task templates are rewritten (and committed) in the workflow
+    repository to what versions[k] says. The workflow (roles, their constraints) stays as it is."""
+    per = [round_scenario(sid, {"offers": h["offers"], "descs": v}) for v in h["versions"]]
+    s = per[0]
+    wf = [k for k in s["files"] if k.startswith("workflows/")]
+    step = s["steps"][0]
+    step["n"] = len(per)
+    step["vars"] = {}
+    for k in range(1, len(per)):
+        if any(per[k]["files"][w] != s["files"][w] for w in wf) or set(per[k]["files"]) != set(s["files"]):
+            raise vlib.Inconclusive("catalogue error: a history may change task templates only")
+        for name, content in per[k]["files"].items():
+            if content != per[k - 1]["files"][name]:
+                step["vars"]["%d|%s" % (k + 1, name)] = content
+    s["model"] = {"offers": h["offers"], "descs": h["versions"][0], "versions": h["versions"], "classes": s["model"]["classes"],
+                  "deployments": len(per)}
+    return s
+
+
 def project_rounds(lines, by_id):
     """Master-side events of the whole-core simulation -> Round / Accept / Decline / RoundEnd / Panic lines: the first
     OFFERS round of every deployment of every scenario (a C05Round record ends a deployment's segment)."""
@@ -463,7 +485,9 @@ def project_rounds(lines, by_id):
                     continue
                 offers = [{"id": o["id"], "host": o["host"], "attrs": o["attrs"], "cpus": int(round(o["cpus"] * 1000)),
                            "mem": int(round(o["mem"])), "ports": o["ports"]} for o in ln["offers"]]
-                rl.append({"ev": "Round", "scn": scn, "offers": offers, "descs": m["descs"], "exec": EXEC})
+                # a history: the descriptors as the repository has their templates at THIS deployment
+                descs = m["versions"][done] if "versions" in m and done < len(m["versions"]) else m["descs"]
+                rl.append({"ev": "Round", "scn": scn, "offers": offers, "descs": descs, "exec": EXEC})
                 state = "open"
             elif ev == "MAccept" and state == "open":
                 tasks = []
@@ -519,14 +543,16 @@ def outcome_lines(scn, o):
 
 
 def gen_rounds(ctx, k_code):
-    """The rounds of the catalogue (ROUND) and every outcome of the implementation-shaped model of the code on them (OUTCOME)."""
+    """The rounds of the catalogue (ROUND), every outcome of the implementation-shaped model of the code on them (OUTCOME)
+    and the histories (HISTORY: deployments in one core between which a task template changes in the repository)."""
     g = ctx.tlc("PlacementGen", None, workers=1, cfg_text=cfg("GenRoundSpec", k_code, ["EmitRound"]), timeout=300)
     outs = g.records("OUTCOME")
     rounds = g.records("ROUND")
-    if not g.no_error or not outs or not rounds:
+    hist = g.records("HISTORY")
+    if not g.no_error or not outs or not rounds or not hist:
         ctx.save_debug(g, "tlc_genround.txt")
         raise vlib.Inconclusive("round generation failed: %s" % vlib.tail(g.out, 8))
-    return outs, rounds
+    return outs, rounds, [dict(zip(("offers", "versions", "exec"), (to_json(x) for x in h[1:4]))) for h in hist]
 
 
 def selftest(ctx, binp, k_rep, k_code, outs):
